@@ -384,7 +384,7 @@ fn ntt120_vec_znx_big_normalize_inter<R, A, BE>(
     let res_size = res.size();
     let a_size = a.size();
 
-    let (carry, _) = carry.split_at_mut(n);
+    let (carry, zero) = carry.split_at_mut(n);
 
     let mut lsh: i64 = res_offset % base2k as i64;
     let mut limbs_offset: i64 = res_offset / base2k as i64;
@@ -432,6 +432,19 @@ fn ntt120_vec_znx_big_normalize_inter<R, A, BE>(
             a.at(a_col, a_start - j - 1),
             carry,
         );
+    }
+
+    // If the offset is negative and exceeds the precision of res, the carry first
+    // crosses the limbs that lie between the discarded limbs of a and res.
+    if limbs_offset < 0 {
+        let gap: usize = ((-limbs_offset) as usize).saturating_sub(res_size);
+        if gap != 0 {
+            nfc_zero(&mut zero[..n]);
+            // An i128 carry reaches its fixed point after at most 128 steps.
+            for _ in 0..gap.min(128) {
+                nfc_middle_carry_only(base2k, 0, &zero[..n], carry);
+            }
+        }
     }
 
     // Propagate carry to remaining lower res limbs (which were zeroed above).
@@ -586,6 +599,21 @@ fn ntt120_vec_znx_big_normalize_cross<R, A, BE>(
     // Propagate carry into the lower (already-zero) res limbs.
     if res_end != 0 {
         let carry_to_use = if a_start == a_end { a_carry } else { res_carry };
+
+        // The carry of `a` is expressed in units of 2^-(-limbs_offset * a_base2k). If this is
+        // finer than the precision of `res`, it is first rounded to the precision of `res`.
+        if a_start == a_end && limbs_offset < 0 {
+            let mut gap_bits: usize = ((-limbs_offset) as usize * a_base2k).saturating_sub(res_tot_bits).min(192);
+            if gap_bits != 0 {
+                nfc_zero(a_norm);
+            }
+            while gap_bits != 0 {
+                let take: usize = gap_bits.min(32);
+                nfc_middle_carry_only(take, 0, a_norm, carry_to_use);
+                gap_bits -= take;
+            }
+        }
+
         for j in 0..res_end {
             if j == res_end - 1 {
                 BE::nfc_final_step_assign(res_base2k, 0, res.at_mut(res_col, res_end - j - 1), carry_to_use);
@@ -618,7 +646,7 @@ fn ntt120_vec_znx_big_normalize_inter_assign<O, R, A, BE>(
     let res_size = res.size();
     let a_size = a.size();
 
-    let (carry, _) = carry.split_at_mut(n);
+    let (carry, zero) = carry.split_at_mut(n);
 
     let mut lsh: i64 = res_offset % base2k as i64;
     let mut limbs_offset: i64 = res_offset / base2k as i64;
@@ -655,6 +683,19 @@ fn ntt120_vec_znx_big_normalize_inter_assign<O, R, A, BE>(
             a.at(a_col, a_start - j - 1),
             carry,
         );
+    }
+
+    // If the offset is negative and exceeds the precision of res, the carry first
+    // crosses the limbs that lie between the discarded limbs of a and res.
+    if limbs_offset < 0 {
+        let gap: usize = ((-limbs_offset) as usize).saturating_sub(res_size);
+        if gap != 0 {
+            nfc_zero(&mut zero[..n]);
+            // An i128 carry reaches its fixed point after at most 128 steps.
+            for _ in 0..gap.min(128) {
+                nfc_middle_carry_only(base2k, 0, &zero[..n], carry);
+            }
+        }
     }
 
     for j in 0..res_end {
@@ -792,6 +833,21 @@ fn ntt120_vec_znx_big_normalize_cross_assign<O, R, A, BE>(
 
     if res_end != 0 {
         let carry_to_use = if a_start == a_end { a_carry } else { res_carry };
+
+        // The carry of `a` is expressed in units of 2^-(-limbs_offset * a_base2k). If this is
+        // finer than the precision of `res`, it is first rounded to the precision of `res`.
+        if a_start == a_end && limbs_offset < 0 {
+            let mut gap_bits: usize = ((-limbs_offset) as usize * a_base2k).saturating_sub(res_tot_bits).min(192);
+            if gap_bits != 0 {
+                nfc_zero(a_norm);
+            }
+            while gap_bits != 0 {
+                let take: usize = gap_bits.min(32);
+                nfc_middle_carry_only(take, 0, a_norm, carry_to_use);
+                gap_bits -= take;
+            }
+        }
+
         for j in 0..res_end {
             if j == res_end - 1 {
                 nfc_final_carry_assign::<O>(res_base2k, res.at_mut(res_col, res_end - j - 1), carry_to_use);
